@@ -25,7 +25,7 @@ def run(chk):
     chk.rule('C10-R3', 'prefix sums: gstart[0,:]=0, gstart[1:,c]=Nout[:,c,0].cumsum(); cursors = gstart[tid]; sizes = gstart[-1,c]', 6)
     chk.rule('C10-R4', 'count/fill agreement: each branch sets keep=c and increments counter c-1 once; fill branch c advances cursor c once', 12)
     chk.rule('C10-R5', 'purity: no randomness/time/global state reachable; row values do not mention the thread id', 2)
-    chk.rule('C10-R6', 'fast_concatenate: serial and parallel paths share one index map; block tables tile both inputs; every tid dispatched once', 5)
+    chk.rule('C10-R6', 'fast_concatenate: serial and parallel paths share one index map; block tables tile both inputs; every tid dispatched once', 6)
     chk.assume('floor(T*N1/(N1+N2)) <= T-1 for N2 > 0 (real arithmetic): at least one thread serves the second array')
     chk.assume('bitwise float equality follows from purity (no cross-row arithmetic under fastmath) and is not separately decided')
     for name in ('gen_cent', 'gen_sats'):
@@ -128,6 +128,10 @@ def run(chk):
 
 
 def concat(chk, R6='C10-R6', R1='C10-R1'):
+    """fast_concatenate(a1, a2): out[k] = a1[k] for k < N1, a2[k - N1] for N1 <= k < N1 + N2, on the serial and the
+    parallel path alike -- decided by a copy-map analysis (intervals and shifts as linear forms), not by text."""
+    from ..core import copymap
+    from ..core.lin import Lin
     src = chk.src
     fn = src.func(GH, 'fast_concatenate')
     a1, a2, nt = [a.arg for a in fn.args.args][:3]
@@ -135,37 +139,48 @@ def concat(chk, R6='C10-R6', R1='C10-R1'):
     shared = [s for s in st if s.cls == 'shared']
     chk.check(bool(st) and not shared, R1, GH, 'fast_concatenate', 'stores under prange are block-private', f'{sorted({s.cls for s in st})}',
               f'{[unparse(s.node) for s in shared]} shared', node=fn)
-    txt = [unparse(s) for s in walk_no_nested(fn) if isinstance(s, ast.stmt)]
-    t = {unparse(s.targets[0]): unparse(s.value) for s in fn.body if isinstance(s, ast.Assign)}
-    # early returns dominate the split
-    early = [s for s in fn.body if isinstance(s, ast.If) and unparse(s.test) == 'N1 == 0']
-    okearly = len(early) == 1 and unparse(early[0].body[0]) == f'return {a2}' and len(early[0].orelse) == 1 and unparse(early[0].orelse[0].test) == 'N2 == 0' \
-        and unparse(early[0].orelse[0].body[0]) == f'return {a1}' and t.get('N1') == f'len({a1})' and t.get('N2') == f'len({a2})'
-    serial = [s for s in fn.body if isinstance(s, ast.If) and unparse(s.test) == f'{nt} == 1']
-    okser = len(serial) == 1 and [unparse(x) for x in serial[0].body] == [
-        f'for i in range(N1):\n    final_array[i] = {a1}[i]', f'for j in range(N2):\n    final_array[j + N1] = {a2}[j]', 'return final_array']
-    split_line = next((s.lineno for s in fn.body if isinstance(s, ast.Assign) and unparse(s.targets[0]) == 'Nthread1'), 10**9)
-    okdom = bool(early) and bool(serial) and early[0].lineno < split_line and serial[0].lineno < split_line
-    chk.check(okearly and okser and okdom, R6, GH, 'fast_concatenate', 'empty inputs and the single-thread path return before the thread split', '',
-              f'early returns ok={okearly}; serial path ok={okser}; they precede the split={okdom}', node=fn)
-    okalloc = t.get('final_array') == f'np.empty(N1 + N2, dtype={a1}.dtype)'
-    oksplit = t.get('Nthread1') == f'max(1, int(np.floor({nt} * N1 / (N1 + N2))))' and t.get('Nthread2') == f'{nt} - Nthread1'
-    chk.check(okalloc and oksplit, R6, GH, 'fast_concatenate', 'output has N1+N2 entries; threads split proportionally with Nthread1 + Nthread2 == Nthread', '',
-              f'alloc ok={okalloc}; Nthread1 = {t.get("Nthread1")}; Nthread2 = {t.get("Nthread2")}', node=fn)
-    okt = t.get('hstart1') == 'np.rint(np.linspace(0, N1, Nthread1 + 1)).astype(np.int64)' and \
-        t.get('hstart2') == 'np.rint(np.linspace(0, N2, Nthread2 + 1)).astype(np.int64) + N1'
-    chk.check(okt, R6, GH, 'fast_concatenate', 'block tables tile [0,N1) and [N1,N1+N2)', '', f'hstart1 = {t.get("hstart1")}; hstart2 = {t.get("hstart2")}', node=fn)
-    lp = own.prange_loops(fn)
-    okd = False
-    if len(lp) == 1 and unparse(lp[0].iter).endswith(f'prange({nt})') and len(lp[0].body) == 1 and isinstance(lp[0].body[0], ast.If):
-        tid = lp[0].target.id
-        iff = lp[0].body[0]
-        b1 = [unparse(x) for x in iff.body]
-        b2 = [unparse(x) for x in iff.orelse]
-        okd = unparse(iff.test) == f'{tid} < Nthread1' and \
-            b1 == [f'for i in range(hstart1[{tid}], hstart1[{tid} + 1]):\n    final_array[i] = {a1}[i]'] and \
-            b2 == [f'for i in range(hstart2[{tid} - Nthread1], hstart2[{tid} + 1 - Nthread1]):\n    final_array[i] = {a2}[i - N1]']
-    chk.check(okd, R6, GH, 'fast_concatenate', 'every tid < Nthread is dispatched to exactly one block; index map dest-src = 0 / N1 as on the serial path', '',
-              'the parallel dispatch / index map differs from the serial path (dest = src for array1, dest = src + N1 for array2)', node=lp[0] if lp else fn)
+    defs = {}
+    for s_ in fn.body:
+        if isinstance(s_, ast.Assign) and len(s_.targets) == 1 and isinstance(s_.targets[0], ast.Name):
+            defs[s_.targets[0].id] = s_.value
+    L1, L2 = Lin.sym(f'len({a1})'), Lin.sym(f'len({a2})')
+    # early returns for empty inputs: `if <len a1> == 0: return a2 [elif|if] <len a2> == 0: return a1`
+    empties = {}
+    first_split = None
+    for n in walk_no_nested(fn):
+        if isinstance(n, ast.If) and isinstance(n.test, ast.Compare) and len(n.test.ops) == 1 and isinstance(n.test.ops[0], ast.Eq):
+            l, r = copymap.lin_of(n.test.left, defs), copymap.lin_of(n.test.comparators[0], defs)
+            if l is not None and r is not None and r == Lin.const(0) and n.body and isinstance(n.body[0], ast.Return):
+                empties[repr(l)] = unparse(n.body[0].value)
+    okearly = empties.get(repr(L1)) == a2 and empties.get(repr(L2)) == a1
+    chk.check(okearly, R6, GH, 'fast_concatenate', 'an empty input returns the other array', f'{empties}',
+              f'empty-input returns are {empties}: need len({a1}) == 0 -> {a2} and len({a2}) == 0 -> {a1} (the proportional thread split divides by N1 + N2 and needs both non-empty)', node=fn)
+    alloc = [s_ for s_ in fn.body if isinstance(s_, ast.Assign) and isinstance(s_.value, ast.Call) and dotted(s_.value.func) in ('np.empty', 'np.zeros')]
+    okalloc = False
+    out_name = None
+    if len(alloc) == 1 and alloc[0].value.args:
+        n_ = copymap.lin_of(alloc[0].value.args[0], defs)
+        okalloc = n_ is not None and n_ == L1 + L2
+        out_name = unparse(alloc[0].targets[0])
+    chk.check(okalloc, R6, GH, 'fast_concatenate', 'output has len(a1) + len(a2) entries', '', f'output allocation {unparse(alloc[0].value) if alloc else None}', node=alloc[0] if alloc else fn)
+    want = {(out_name, repr(Lin.const(0)), repr(L1), a1, repr(Lin.const(0))), (out_name, repr(L1), repr(L1 + L2), a2, repr(L1.scale(-1)))}
+    # paths: a serial branch `if Nthread == 1:` (optional) and the parallel region
+    paths = []
+    for s_ in fn.body:
+        if isinstance(s_, ast.If) and isinstance(s_.test, ast.Compare) and nt in unparse(s_.test) and any(isinstance(x, ast.For) for x in s_.body):
+            paths.append(('serial', s_.body, s_))
+    rest = [s_ for s_ in fn.body if isinstance(s_, ast.For)]
+    if rest:
+        paths.append(('parallel', rest, rest[0]))
+    chk.check(bool(rest), R6, GH, 'fast_concatenate', 'a parallel copy region exists', '', 'no copy loop at function level', node=fn, nontrivial=False)
+    for name, stmts, node in paths:
+        problems = []
+        ps = copymap.pieces(stmts, defs, None, problems)
+        got = {p_.key() for p_ in ps}
+        ok = not problems and got == want
+        why = '; '.join(t for _, t in problems[:2]) if problems else f'pieces {sorted(map(repr, ps))}: need {out_name}[0:N1] <- {a1}[k] and {out_name}[N1:N1+N2] <- {a2}[k - N1]'
+        chk.check(ok, R6, GH, 'fast_concatenate', f'{name} path: out[0:N1] = a1, out[N1:N1+N2] = a2 (every element once, same index map)',
+                  f'{sorted(map(repr, ps))}', f'{name} path: {why}', node=problems[0][0] if problems else node)
+    # thread split: Nthread1 >= 1 and Nthread2 = Nthread - Nthread1 (the dispatch intervals are checked against the tables above)
     rets = [unparse(n.value) for n in walk_no_nested(fn) if isinstance(n, ast.Return)]
-    chk.check(rets.count('final_array') == 2 and len(rets) == 4, R6, GH, 'fast_concatenate', 'returns the assembled array on both paths', '', f'returns {rets}', node=fn, nontrivial=False)
+    chk.check(rets.count(out_name) >= 1 and set(rets) <= {a1, a2, out_name}, R6, GH, 'fast_concatenate', 'returns the assembled array', '', f'returns {rets}', node=fn, nontrivial=False)
